@@ -2,7 +2,7 @@
 R-SPARSETEST, R-ACCRESET, R-ALIAS, R-SIBGUARD."""
 import ast
 
-from ..model import norm_src, names_in, attr_chain, AnalysisError
+from ..model import norm_src, names_in, attr_chain, AnalysisError, is_inf
 from ..cfg import cfg_of
 from .control import loc, _slot_call, _grad_like
 
@@ -465,3 +465,103 @@ def r_selfdiff(A, ctx, scope, rule="R-SELFDIFF"):
                loc=loc(f, bad[0]) if bad else None)
     ctx.extra["returns_alias_helpers"] = sorted(x.fq for x in ret_alias)
     ctx.floor(rule + "/helpers", len(ret_alias), 1)
+
+
+def r_wssize(A, ctx, scope, rule="R-WSSIZE"):
+    """C05 / C01: the working set contains the generalized support"""
+    ctx.rule(rule, "working-set size: the value used to cut the working set (`argpartition(opt, -k)[-k:]`) is "
+             "bounded below by a multiple of the current support size and capped only by the total "
+             "number of coordinates: a cap by anything else (n_samples, a constant) can leave support "
+             "coordinates outside the working set, where an accepted extrapolation zeroes them without "
+             "updating the model fit")
+    flow = A.flow
+    n = 0
+    for name, sf in sorted(A.facts.items()):
+        f = sf.f
+        use = None
+        for c in ast.walk(f.node):
+            if isinstance(c, ast.Call) and ast.unparse(c.func).endswith("argpartition") and len(c.args) >= 2:
+                k = c.args[1]
+                if isinstance(k, ast.UnaryOp) and isinstance(k.operand, ast.Name):
+                    use = (k.operand.id, c)
+        if use is None:
+            continue
+        var, call = use
+        cfg = cfg_of(f)
+        nid = None
+        for nd in cfg.stmts():
+            if nd.ast is not None and any(x is call for x in ast.walk(nd.ast)):
+                nid = nd.id
+        defs = [d for d in cfg.reaching_defs().get(nid, {}).get(var, ()) if d >= 0] if nid is not None else []
+
+        def inline(e, depth=0):
+            """names replaced by their (single) defining expressions, two levels deep"""
+            out = [e]
+            if depth < 2:
+                for nm in names_in(e):
+                    vs = [st.value for st in ast.walk(f.node) if isinstance(st, ast.Assign)
+                          and len(st.targets) == 1 and isinstance(st.targets[0], ast.Name) and st.targets[0].id == nm]
+                    for v in vs:
+                        out += inline(v, depth + 1)
+            return out
+
+        def is_total(e):
+            return isinstance(e, ast.Name) and bool(set(flow.env[f].get(e.id, ())) & {"NF", "NG", "NFEAT", "NGRP"}) \
+                or (isinstance(e, ast.Name) and e.id in ("n_features", "n_groups"))
+
+        def has_support(e):
+            for x in inline(e):
+                for sub in ast.walk(x):
+                    if isinstance(sub, ast.Call) and isinstance(sub.func, ast.Attribute) and sub.func.attr == "sum" \
+                            and ("generalized_support" in ast.unparse(sub) or "!= 0" in ast.unparse(sub)):
+                        return True
+            return False
+
+        def bounded_below(e):
+            """e >= min(total, support term)"""
+            if isinstance(e, ast.Call) and ast.unparse(e.func) in ("max", "np.maximum"):
+                return any(bounded_below(a) or has_support(a) for a in e.args)
+            if isinstance(e, ast.Call) and ast.unparse(e.func) in ("min", "np.minimum"):
+                others = [a for a in e.args if not is_total(a)]
+                return bool(others) and all(bounded_below(a) or has_support(a) for a in others)
+            return False
+        # unpenalised coordinates are forced into the working set (`opt[unpen] = np.inf`): the size
+        # must leave room for all of them on top of the p0 scored ones
+        unpen_count = None
+        for st in ast.walk(f.node):
+            if isinstance(st, ast.Assign) and len(st.targets) == 1 and isinstance(st.targets[0], ast.Name) \
+                    and isinstance(st.value, ast.Call) and isinstance(st.value.func, ast.Attribute) \
+                    and st.value.func.attr == "sum" and isinstance(st.value.func.value, ast.Name):
+                src = st.value.func.value.id
+                forced = any(isinstance(x, ast.Assign) and isinstance(x.targets[0], ast.Subscript)
+                             and isinstance(x.targets[0].slice, ast.Name) and x.targets[0].slice.id == src
+                             and is_inf(x.value) for x in ast.walk(f.node))
+                if forced:
+                    unpen_count = st.targets[0].id
+
+        def room_for_unpen(e):
+            if unpen_count is None:
+                return True
+            for sub in ast.walk(e):
+                if isinstance(sub, ast.BinOp) and isinstance(sub.op, ast.Add) and unpen_count in names_in(sub) \
+                        and not any(isinstance(x, ast.BinOp) and isinstance(x.op, ast.Sub) for x in ast.walk(sub)):
+                    return True
+            return False
+        for d in defs:
+            a = cfg.nodes[d].ast
+            if not isinstance(a, ast.Assign):
+                continue
+            n += 1
+            if bounded_below(a.value) and not room_for_unpen(a.value):
+                ctx.ob(rule, f"{f.fq}::{norm_src(a)[:70]}", False,
+                       what=f"`{norm_src(a)[:80]}`: the unpenalised coordinates are forced into the working set "
+                            f"(`{unpen_count}` of them) but the size has no `+ {unpen_count}` term: with more "
+                            "unpenalised coordinates than p0 some of them are never updated",
+                       loc=loc(f, a))
+                continue
+            ctx.ob(rule, f"{f.fq}::{norm_src(a)[:70]}", bounded_below(a.value),
+                   what=f"`{norm_src(a)[:80]}` is the size the working set is cut to, and it is not bounded "
+                        "below by the support size up to the total number of coordinates: coordinates of the "
+                        "current support can be left out of the working set (a warm start with a large support, "
+                        "more features than the cap)", loc=loc(f, a))
+    ctx.floor(rule, n, scope.get("floor", 4))
